@@ -41,13 +41,17 @@ class CrossWorld:
         self.shy = rng.uniform(-5, 5, size=py) + (1j * rng.uniform(-5, 5, size=py) if cplx else 0)
         self.t = np.arange(N)
         self.px, self.py = px, py
+        ce = cfg.get("cexp", [0, 0])
+        self.cx, self.cy = 10.0 ** ce[0], 10.0 ** ce[1]
 
     def X(self, scale=1.0):
+        scale = scale * self.cx
         return xr.DataArray((self.X0 + self.shx) * scale, dims=("time", "x"), coords=dict(time=self.t, x=np.arange(self.px) * 1.0), name="X")
 
     def Y(self, scale=1.0):
         tl = self.cfg.get("tlab", "same")
         t = self.t + 5 if tl == "shifted" else (self.t[::-1].copy() if tl == "reversed" else self.t)
+        scale = scale * self.cy
         return xr.DataArray((self.Y0 + self.shy) * scale, dims=("time", "y"), coords=dict(time=t, y=np.arange(self.py) * 2.0), name="Y")
 
 
@@ -83,17 +87,27 @@ def fit(cfg, cw, fam=None, **over):
     return m
 
 
+def unit(pred):
+    """the factor by which the magnitudes of the two fields multiply every singular value (XWorldCross.scaleExp2)"""
+    return 10.0 ** (pred.get("scaleExp2", 0) / 2.0)
+
+
 def sigma(pred, i, kappa):
     ax, ay = ALPHA[pred["alpha"][0]], ALPHA[pred["alpha"][1]]
     sx, sy, c = pred["sx"][i], pred["sy"][i], pred["c5"][i] / 5.0
     if c == 0:
         return 0.0
-    return (sx ** ax) * kappa ** ((1 - ax) / 2) * (sy ** ay) * kappa ** ((1 - ay) / 2) * c / (N - 1)
+    return unit(pred) * (sx ** ax) * kappa ** ((1 - ax) / 2) * (sy ** ay) * kappa ** ((1 - ay) / 2) * c / (N - 1)
 
 
 def check_cross(ck: Checker, scn, cw, m, tag, prop="C09"):
     cfg, pred = scn["cfg"], scn["pred"]
     k = pred["k"]
+    try:                      # a getter with the other normalisation first: it must not leave anything behind
+        m.scores(normalized=True)
+        m.components(normalized=False)
+    except Exception:  # noqa
+        pass
     sv = np.asarray(m.data["singular_values"].values, float)
     ck.d(len(sv) == k, prop, "C09_Descending", f"{tag}: {len(sv)} modes, expected {k}")
     if len(sv) != k:
@@ -101,10 +115,10 @@ def check_cross(ck: Checker, scn, cw, m, tag, prop="C09"):
     ck.p((sv >= -1e-12).all() and all(sv[i] >= sv[i + 1] - 1e-10 * max(sv[0], 1e-300) for i in range(k - 1)), prop, "C09_Descending",
          f"{tag}: singular values not non-negative and descending: {sv.tolist()}")
     best = None
-    scale = max(sigma(pred, 0, N), 1e-6)
+    scale = max(sigma(pred, 0, N), 1e-6 * unit(pred))
     for kap in (N, N - 1):
         exp = np.array([sigma(pred, i, kap) for i in range(k)])
-        if np.abs(sv - exp).max() <= 1e-8 * max(exp.max(), 1.0):
+        if np.abs(sv - exp).max() <= 1e-8 * max(exp.max(), unit(pred)):
             best = kap
             break
     exp16 = [round(sigma(pred, i, N), 9) for i in range(k)]
